@@ -33,4 +33,5 @@ def with_state_lint(prop, run):
             shared.handlers_unchanged(check, rels)
             shared.copy_source_untouched(check, rels)
             shared.no_identity_on_values(check, rels)
+            shared.no_store_unless_present(check, rels)
     return wrapped
